@@ -24,13 +24,16 @@ STAGES = {
     "C02": [S("e_seq", "asu", 12000, 400000)],
     "C05": [S("e_seq", "asu", 12000, 400000)],
     "C06": [S("e_seq", "asu", 12000, 400000)],
-    "C09": [S("e_seq", "asu", 12000, 400000)],
+    "C09": [S("e_seq", "asu", 12000, 400000), S("e_tbb", "asu", 6000, 200000)],
     "C15": [S("e_seq", "asu", 12000, 400000)],
+    "C03": [S("e_tbb", "asu", 9000, 300000), S("e_tbb", "tsan", 4000, 120000, gate=False)],
+    "C20": [S("e_tbb", "asu", 4000, 60000)],
 }
 
 # classes that belong to C07 whatever workload found them
 SANITIZER_PREFIXES = ("asan:", "ubsan:", "lsan:", "tsan:", "signal:", "abort", "crash:", "valgrind:")
 
+RACE_PROPS = ("C03", "C04")     # properties whose statement includes the no-data-race clause
 RULES = {}
 REAL_STUB = {
     "real": ["every header under /repo/include/parmcb (compiled from the working tree)", "Boost.Graph / Boost.Serialization / Boost.Heap / libstdc++", "glibc stdio"],
@@ -254,12 +257,12 @@ def check_property(prop, tier, seed, stages=None, extra_cov=None, class_filter=N
     viol = []     # (cls, stage, file, res)
     for j in all_results:
         for cls in j["classes"]:
-            if cls.startswith(SANITIZER_PREFIXES) and prop != "C07": continue
+            if cls.startswith(SANITIZER_PREFIXES) and prop != "C07" and not (prop in RACE_PROPS and cls.startswith("tsan:")): continue
             if class_filter and not class_filter(cls, j): continue
             viol.append((cls, j["_stage"], j.get("viol_file"), j))
     crash_other = 0
     for st, cls, f, idx, tail in all_crashes:
-        if prop == "C07" or cls == "hang":
+        if prop == "C07" or cls == "hang" or (prop in RACE_PROPS and cls.startswith("tsan:")):
             viol.append((cls, st, f, {"i": idx, "entry": "", "classes": [cls], "_stage": st, "detail": {"log_tail": tail[-800:]}}))
         else:
             crash_other += 1
@@ -277,7 +280,7 @@ def check_property(prop, tier, seed, stages=None, extra_cov=None, class_filter=N
         vs.sort(key=lambda v: v[3]["i"])
         v = vs[0]
         if not v[2]: harness_error("violation without a case file")
-        final, rep = minimise_and_confirm(prop, cls, v[1], v[2], os.path.join(VERIF, "replays"))
+        final, rep = minimise_and_confirm(prop, cls, v[1], v[2], os.environ.get("VERIF_REPLAYS", os.path.join(VERIF, "replays")))
         reported.append((cls, final, len(vs), rep))
     wall = time.time() - t_start
     write_evidence(prop, tier, seed, all_results, stage_info, reported, known_hits, wall, bt, gate_total, crash_other, extra_cov)
